@@ -1834,6 +1834,15 @@ class Runner
             }
             VF_REQUIRE(r.live.empty(), "object_never_destroyed", "after all containers were destroyed " + std::to_string(r.live.size()) + " tracked objects are still alive");
         }
+        if (prop != 6 && prop != 7 && prop != 17)
+        {
+            // the backstop of after_op, for what the final destruction of all containers does
+            if (!ledger().errors.empty())
+                fail(ledger().errors[0].code, ledger().errors[0].msg);
+            else if (!registry().errors.empty())
+                fail(registry().errors[0].code, registry().errors[0].msg);
+            if (bad()) return;
+        }
         if (prop == 7 || prop == 17)
         {
             auto& l = ledger();
